@@ -871,6 +871,18 @@ class HTTPResponse(BaseHTTPResponse):
                     break
                 buffer.write(data)
                 del data  # to reduce peak memory usage by `max_chunk_amt`.
+            if (
+                amt is None
+                and self.enforce_content_length
+                and self.length_remaining is not None
+                and buffer.tell() < self.length_remaining
+            ):
+                # Unlike `read()`, `read(amt)` of http.client does not raise
+                # when the body ends early, so neither did the loop above.
+                raise IncompleteRead(
+                    self._fp_bytes_read + buffer.tell(),
+                    self.length_remaining - buffer.tell(),
+                )
             return buffer.getvalue()
         elif read1:
             return self._fp.read1(amt) if amt is not None else self._fp.read1()
